@@ -184,7 +184,7 @@ class Translator:
                 decos = [ast.unparse(d) for d in m.decorator_list]
                 want_deco = [] if name in ('is_partner', '__post_init__') else ['property']
                 if ast.unparse(m.args) == params and decos == want_deco and \
-                        [ast.dump(s) for s in got] == [ast.dump(s) for s in ast.parse(body).body]:
+                        gen.alpha_dump(got) == gen.alpha_dump(ast.parse(body).body):
                     self.pinned.add(key)
                     return
                 break
